@@ -10,8 +10,11 @@ open RV.C17
 #print axioms longest_in_histories
 #print axioms generated_prefix_fresh
 #print axioms document_names_expand
+#print axioms trig_names_expand
 #print axioms no_loop
 #print axioms split_uri_complete
 #print axioms qname_fails_only_unsplittable
+#print axioms qname_strict_fails_only
+#print axioms category_table
 #print axioms old_nonoverride_bind_breaks_bijection
 #print axioms colon_prefix_not_expandable
